@@ -18,6 +18,11 @@
 (*         "rtn"  return               (no value: a guard clause)          *)
 (*         "ifa"  if c: t = (n, (r..))          compound statements on one  *)
 (*         "wha"  while _w(n, c): t = (n, (r..))        physical line       *)
+(*         "cmp"  print((n, tuple([t for t in (r..)])))   t: comprehension   *)
+(*                variable, does not bind outside the comprehension         *)
+(*         "try"  try:                  "exc"  except NameError:            *)
+(*                reading an unbound name inside the try block runs the     *)
+(*                handler block                                             *)
 (*      an "else" line may also follow the block of a for / while: it runs  *)
 (*      when the loop ends without break; break / continue inside it belong *)
 (*      to the enclosing loop                                               *)
@@ -75,22 +80,25 @@ Shapes ==
   \cup { Shape(k, "", r, "") : k \in ({"prt", "ret"} \cap Kinds), r \in ReadSets }
   \cup { Shape(k, "", {}, c) : k \in ({"if", "whl"} \cap Kinds), c \in Conds }
   \cup { Shape(k, t, {}, "") : k \in ({"for"} \cap Kinds), t \in ForTargets }
-  \cup { Shape(k, "", {}, "") : k \in ({"else", "brk", "cnt", "rtn"} \cap Kinds) }
+  \cup { Shape(k, "", {}, "") : k \in ({"else", "brk", "cnt", "rtn", "try", "exc"} \cap Kinds) }
+  \cup { Shape(k, t, r, "") : k \in ({"cmp"} \cap Kinds), t \in Vars, r \in ReadSets }
   \cup { Shape(k, t, r, c) : k \in ({"ifa", "wha"} \cap Kinds), t \in Vars, r \in {{}, Vars}, c \in Conds }
 
 MkLine(sh, n, d) == [n |-> n, d |-> d, k |-> sh.k, t |-> sh.t, r |-> sh.r, c |-> sh.c]
 
-IsHeader(l) == l.k \in {"if", "else", "for", "whl"}
+IsHeader(l) == l.k \in {"if", "else", "for", "whl", "try", "exc"}
+Clause(l)   == l.k \in {"else", "exc"}        \* continues the statement of an earlier header
 IsLoop(l)   == l.k \in {"for", "whl", "wha"}
 Inline(l)   == l.k \in {"ifa", "wha"}          \* a compound statement on one physical line
 Abrupt(l)   == l.k \in {"ret", "rtn", "brk", "cnt"}
 Simple(l)   == l.k \in {"asg", "aug", "prt", "ret"}
+HasTuple(l) == Simple(l) \/ Inline(l) \/ l.k = "cmp"     \* the line carries a tuple (n, (r..))
 
 \* may a line of shape sh be appended to s at depth d
 CanAppend(s, sh, d) ==
   /\ d \in 0..MaxDepth
   /\ IsHeader(sh) => (d < MaxDepth /\ Len(s) + 1 < MaxLines)
-  /\ IF s = <<>> THEN d = 0 /\ sh.k # "else"
+  /\ IF s = <<>> THEN d = 0 /\ ~Clause(sh)
      ELSE LET p == s[Len(s)] IN
           /\ IF IsHeader(p) THEN d = p.d + 1 ELSE d <= p.d
           /\ Abrupt(p) => d < p.d                       \* no dead code
@@ -98,11 +106,21 @@ CanAppend(s, sh, d) ==
                /\ ~IsHeader(p)
                /\ LET q == Max({m \in 1..Len(s) : s[m].d <= d})
                   IN s[q].d = d /\ s[q].k \in {"if", "for", "whl"}
+          /\ sh.k = "exc" =>
+               /\ ~IsHeader(p)
+               /\ LET q == Max({m \in 1..Len(s) : s[m].d <= d})
+                  IN s[q].d = d /\ s[q].k = "try"
+          \* a try block can only be closed by its except clause
+          /\ \A h \in 1..(Len(s) - 1) :
+                (s[h].k = "try" /\ s[h].d >= d /\ \A m \in (h+1)..Len(s) : s[m].d > s[h].d)
+                   => (s[h].d = d /\ sh.k = "exc")
   /\ sh.k \in {"brk", "cnt"} =>
        \E m \in 1..Len(s) : /\ IsLoop(s[m]) /\ s[m].d < d
                             /\ \A m2 \in (m+1)..Len(s) : s[m2].d > s[m].d
 
-Complete(s) == s # <<>> /\ ~IsHeader(s[Len(s)])
+Complete(s) ==
+  /\ s # <<>> /\ ~IsHeader(s[Len(s)])
+  /\ ~\E h \in 1..Len(s) : s[h].k = "try" /\ \A m \in (h+1)..Len(s) : s[m].d > s[h].d
 
 -----------------------------------------------------------------------------
 (* Structure                                                               *)
@@ -118,7 +136,7 @@ ElseHi(b, i) == BlockEnd(b, BlockEnd(b, i) + 1)
 
 \* last line of the statement that starts at line i (an if / a loop owns its else)
 StmtEnd(b, i) ==
-  LET e == BlockEnd(b, i) IN IF HasElse(b, i) THEN BlockEnd(b, e + 1) ELSE e
+  LET e == BlockEnd(b, i) IN IF HasElse(b, i) \/ b[i].k = "try" THEN BlockEnd(b, e + 1) ELSE e
 
 \* header of the block that line i is a member of, 0 at function level
 Parent(b, i) ==
@@ -130,7 +148,7 @@ IfOf(b, p) == Max({m \in 1..(p-1) : b[m].d <= b[p].d})
 \* statement of the block at nesting k (1 = function level) that contains m
 StmtAt(b, m, k) ==
   LET q == Max({x \in 1..m : b[x].d <= k - 1})
-  IN IF b[q].k = "else" THEN IfOf(b, q) ELSE q
+  IN IF Clause(b[q]) THEN IfOf(b, q) ELSE q
 
 \* loops around line m
 LoopAncestors(b, m) == {p \in 1..(m-1) : IsLoop(b[p]) /\ BlockEnd(b, p) >= m}
@@ -141,9 +159,9 @@ Reach(b, i, j) ==
   LET e == StmtEnd(b, i) IN
   IF e = j THEN TRUE
   ELSE IF e > j THEN FALSE
-  ELSE b[e+1].d = b[i].d /\ b[e+1].k # "else" /\ Reach(b, e + 1, j)
+  ELSE b[e+1].d = b[i].d /\ ~Clause(b[e+1]) /\ Reach(b, e + 1, j)
 
-IsRun(b, i, j) == 1 <= i /\ i <= j /\ j <= Len(b) /\ b[i].k # "else" /\ Reach(b, i, j)
+IsRun(b, i, j) == 1 <= i /\ i <= j /\ j <= Len(b) /\ ~Clause(b[i]) /\ Reach(b, i, j)
 
 \* break / continue in i..j belong to a loop inside i..j
 NoEscape(b, i, j) ==
@@ -215,7 +233,10 @@ ExecStmt(b, H, i, inp, st) ==
     [] l.k = "aug" ->
          IF (Needs(l) \cup {l.t}) \subseteq st.bnd
          THEN Bind(st, l.t, st.env[l.t] \o ExprVal(l, st.env)) ELSE Raise(st)
-    [] l.k = "prt" ->
+    [] l.k = "try" ->
+         LET st1 == ExecRange(b, H, i + 1, e, inp, st)
+         IN IF st1.sig = "exc" THEN ExecRange(b, H, e + 2, BlockEnd(b, e + 1), inp, Norm(st1)) ELSE st1
+    [] l.k \in {"prt", "cmp"} ->
          IF Needs(l) \subseteq st.bnd
          THEN [st EXCEPT !.out = Append(@, ExprVal(l, st.env))] ELSE Raise(st)
     [] l.k = "ret" ->
@@ -285,43 +306,46 @@ Run(b, H, initB, inp) == Obs(ExecRange(b, H, 1, Len(b), inp, St0(initB)))
 
 FlowVars == Vars \cup Conds
 
-RECURSIVE LB(_, _, _, _, _, _, _), LBStmt(_, _, _, _, _, _), LoopFix(_, _, _, _, _, _, _)
+RECURSIVE LB(_, _, _, _, _, _, _, _), LBStmt(_, _, _, _, _, _, _), LoopFix(_, _, _, _, _, _, _, _)
 
 \* variables live before statements lo..hi, given the live sets after them
-\* (X), at the target of break (Xb) and at the target of continue (Xc);
+\* (X), at the target of break (Xb), at the target of continue (Xc) and at
+\* the entry of the handler that catches a raise here (Xh);
 \* be: follow loop back edges
-LB(be, b, lo, hi, X, Xb, Xc) ==
+LB(be, b, lo, hi, X, Xb, Xc, Xh) ==
   IF lo > hi THEN X
-  ELSE LBStmt(be, b, lo, LB(be, b, StmtEnd(b, lo) + 1, hi, X, Xb, Xc), Xb, Xc)
+  ELSE LBStmt(be, b, lo, LB(be, b, StmtEnd(b, lo) + 1, hi, X, Xb, Xc, Xh), Xb, Xc, Xh)
 
-LBStmt(be, b, i, X, Xb, Xc) ==
+\* any statement may raise before it has any effect: Xh is live before it
+LBStmt(be, b, i, X, Xb, Xc, Xh) ==
   LET l == b[i]
       e == BlockEnd(b, i)
-  IN
-  CASE l.k = "asg" -> (X \ {l.t}) \cup l.r
+  IN Xh \cup
+  (CASE l.k = "asg" -> (X \ {l.t}) \cup l.r
     [] l.k = "aug" -> X \cup {l.t} \cup l.r
-    [] l.k = "prt" -> X \cup l.r
+    [] l.k \in {"prt", "cmp"} -> X \cup l.r
     [] l.k = "ret" -> l.r
     [] l.k = "rtn" -> {}
     [] l.k = "brk" -> Xb
     [] l.k = "cnt" -> Xc
-    [] l.k = "if"  -> {l.c} \cup LB(be, b, i + 1, e, X, Xb, Xc)
-                      \cup (IF HasElse(b, i) THEN LB(be, b, e + 2, BlockEnd(b, e + 1), X, Xb, Xc) ELSE X)
+    [] l.k = "if"  -> {l.c} \cup LB(be, b, i + 1, e, X, Xb, Xc, Xh)
+                      \cup (IF HasElse(b, i) THEN LB(be, b, e + 2, BlockEnd(b, e + 1), X, Xb, Xc, Xh) ELSE X)
+    [] l.k = "try" -> LB(be, b, i + 1, e, X, Xb, Xc, LB(be, b, e + 2, BlockEnd(b, e + 1), X, Xb, Xc, Xh))
     [] Inline(l) -> {l.c} \cup X \cup l.r             \* the write is conditional: kills nothing
-    [] OTHER -> LET Xe == IF HasElse(b, i) THEN LB(be, b, ElseLo(b, i), ElseHi(b, i), X, Xb, Xc) ELSE X
-                IN LoopFix(be, b, i, X, Xe, Xe, 5)
+    [] OTHER -> LET Xe == IF HasElse(b, i) THEN LB(be, b, ElseLo(b, i), ElseHi(b, i), X, Xb, Xc, Xh) ELSE X
+                IN LoopFix(be, b, i, X, Xe, Xe, Xh, 5))
 
 \* live set at the head of the loop at line i, least fixed point from Xe;
 \* X: live after the whole statement (target of break), Xe: live where the
 \* loop ends without break (before its else clause, if any)
-LoopFix(be, b, i, X, Xe, Hd, fuel) ==
+LoopFix(be, b, i, X, Xe, Hd, Xh, fuel) ==
   LET l == b[i]
       back == IF be THEN Hd ELSE Xe
-      inner == LB(be, b, i + 1, BlockEnd(b, i), back, X, back)
+      inner == LB(be, b, i + 1, BlockEnd(b, i), back, X, back, Xh)
       nxt == IF l.k = "for" THEN Xe \cup (inner \ {l.t}) ELSE {l.c} \cup Xe \cup inner
-  IN IF fuel = 0 \/ nxt = Hd THEN nxt ELSE LoopFix(be, b, i, X, Xe, nxt, fuel - 1)
+  IN IF fuel = 0 \/ nxt = Hd THEN nxt ELSE LoopFix(be, b, i, X, Xe, nxt, Xh, fuel - 1)
 
-NoCtx == [live |-> {}, brk |-> {}, cnt |-> {}]
+NoCtx == [live |-> {}, brk |-> {}, cnt |-> {}, h |-> {}]
 
 \* live sets that hold at the end of the block whose header is line p
 RECURSIVE BlockCtx(_, _, _), AfterCtx(_, _, _, _)
@@ -330,17 +354,19 @@ AfterCtx(be, b, i, e) ==
   LET p == Parent(b, i)
       hi == IF p = 0 THEN Len(b) ELSE BlockEnd(b, p)
       pc == IF p = 0 THEN NoCtx ELSE BlockCtx(be, b, p)
-  IN [live |-> LB(be, b, e + 1, hi, pc.live, pc.brk, pc.cnt), brk |-> pc.brk, cnt |-> pc.cnt]
+  IN [live |-> LB(be, b, e + 1, hi, pc.live, pc.brk, pc.cnt, pc.h), brk |-> pc.brk, cnt |-> pc.cnt, h |-> pc.h]
 
 BlockCtx(be, b, p) ==
-  LET q == IF b[p].k = "else" THEN IfOf(b, p) ELSE p
+  LET q == IF Clause(b[p]) THEN IfOf(b, p) ELSE p
       A == AfterCtx(be, b, q, StmtEnd(b, q))
   IN IF IsLoop(b[p])
-     THEN LET Xe == IF HasElse(b, p) THEN LB(be, b, ElseLo(b, p), ElseHi(b, p), A.live, A.brk, A.cnt)
+     THEN LET Xe == IF HasElse(b, p) THEN LB(be, b, ElseLo(b, p), ElseHi(b, p), A.live, A.brk, A.cnt, A.h)
                     ELSE A.live
-              Hd == LoopFix(be, b, p, A.live, Xe, Xe, 5)
+              Hd == LoopFix(be, b, p, A.live, Xe, Xe, A.h, 5)
           IN [live |-> IF be THEN Hd ELSE Xe, brk |-> A.live,
-              cnt |-> IF be THEN Hd ELSE Xe]
+              cnt |-> IF be THEN Hd ELSE Xe, h |-> A.h]
+     ELSE IF b[p].k = "try"
+     THEN [A EXCEPT !.h = LB(be, b, ElseLo(b, p), ElseHi(b, p), A.live, A.brk, A.cnt, A.h)]
      ELSE A
 
 \* variables certainly assigned by statements lo..hi when they complete
@@ -353,7 +379,7 @@ DWStmt(b, i) ==
       e == BlockEnd(b, i)
   IN CASE l.k \in {"asg", "aug"} -> {l.t}
        [] Abrupt(l) -> FlowVars
-       [] l.k = "if" /\ HasElse(b, i) -> DW(b, i + 1, e) \cap DW(b, e + 2, BlockEnd(b, e + 1))
+       [] (l.k = "if" /\ HasElse(b, i)) \/ l.k = "try" -> DW(b, i + 1, e) \cap DW(b, e + 2, BlockEnd(b, e + 1))
        [] OTHER -> {}
 
 \* variables certainly bound when control reaches statement i
@@ -363,10 +389,10 @@ DAat(b, initB, i) ==
       first == p + 1
   IN IF i = first
      THEN IF p = 0 THEN initB \cup Conds
-          ELSE IF b[p].k = "else" THEN DAat(b, initB, IfOf(b, p))
+          ELSE IF Clause(b[p]) THEN DAat(b, initB, IfOf(b, p))
           ELSE DAat(b, initB, p) \cup (IF b[p].k = "for" /\ b[p].t # "" THEN {b[p].t} ELSE {})
      ELSE LET q == CHOOSE m \in first..(i-1) :
-                     b[m].d = b[i].d /\ b[m].k # "else" /\ StmtEnd(b, m) = i - 1
+                     b[m].d = b[i].d /\ ~Clause(b[m]) /\ StmtEnd(b, m) = i - 1
           IN DAat(b, initB, q) \cup DW(b, q, i - 1)
 
 Written(b, i, j) == {b[m].t : m \in {m2 \in i..j : b[m2].k \in {"asg", "aug", "for", "ifa", "wha"}}} \ {""}
@@ -384,10 +410,10 @@ Results(b, i, j) == ResultsBE(BackEdges, b, i, j)
 
 \* parameters: live on entry of the region when Results are live after it.
 \* A result that the region writes only on some paths is live on entry too.
-Params(b, i, j) == LB(BackEdges, b, i, j, Results(b, i, j), {}, {})
+Params(b, i, j) == LB(BackEdges, b, i, j, Results(b, i, j), {}, {}, {})
 
 \* read in the region before being certainly written there
-LiveInOnly(b, i, j) == LB(BackEdges, b, i, j, {}, {}, {})
+LiveInOnly(b, i, j) == LB(BackEdges, b, i, j, {}, {}, {}, {})
 
 StructOK(b, i, j) == IsRun(b, i, j) /\ NoEscape(b, i, j) /\ RetOK(b, i, j)
 ParamsBound(b, initB, i, j) == Params(b, i, j) \subseteq DAat(b, initB, i)
@@ -441,7 +467,7 @@ WriteAfterInner(b, i, j, v) ==
      /\ Mention(b[m], v) \in {"w", "rw"}
      /\ b[m].d > b[i].d
      /\ \E h \in (StmtAt(b, m, b[i].d + 1) + 1)..(m - 1) :
-           ((IsHeader(b[h]) /\ b[h].k # "else") \/ Inline(b[h])) /\ StmtEnd(b, h) < m
+           ((IsHeader(b[h]) /\ ~Clause(b[h])) \/ Inline(b[h])) /\ StmtEnd(b, h) < m
 
 ShapeOf(b, i, j, v) ==
   LET fr == FirstReadLine(b, i, j, v)
@@ -505,8 +531,8 @@ SubReads(l, s) == IF s.sub = "name" THEN {s.v} ELSE l.r
 \* lines on which the same sub-expression text occurs
 Matches(b, i, s) ==
   IF s.sub = "whole" THEN {i}
-  ELSE IF s.sub = "group" THEN {m \in 1..Len(b) : (Simple(b[m]) \/ Inline(b[m])) /\ b[m].r = b[i].r}
-  ELSE {m \in 1..Len(b) : (Simple(b[m]) \/ Inline(b[m])) /\ s.v \in b[m].r}
+  ELSE IF s.sub = "group" THEN {m \in 1..Len(b) : HasTuple(b[m]) /\ b[m].r = b[i].r}
+  ELSE {m \in 1..Len(b) : HasTuple(b[m]) /\ s.v \in b[m].r}
 
 \* headers of the blocks around line m, outermost first (0 = the function)
 RECURSIVE Chain(_, _)
@@ -661,7 +687,7 @@ ExprSound ==
 \* every read is definitely assigned never raises)
 AllReadsDA(b, initB) ==
   \A m \in 1..Len(b) :
-     b[m].k # "else" =>
+     ~Clause(b[m]) =>
        ((b[m].r \cup (IF b[m].k = "aug" THEN {b[m].t} ELSE {})) \subseteq DAat(b, initB, m))
 DefiniteAssignmentSound ==
   (phase = "build" /\ Complete(body) /\ AllReadsDA(body, init)) =>
